@@ -1,0 +1,78 @@
+//go:build verif
+
+package nitro
+
+import (
+	"io"
+	"os"
+	"sync/atomic"
+	"unsafe"
+
+	"github.com/couchbase/nitro/skiplist"
+)
+
+// Simulation hooks; scheduling hooks are shared with the skiplist package.
+
+func vyield(site int)              { skiplist.VerifYield(site) }
+func vblock(site int) uintptr      { return skiplist.VerifBlock(site) }
+func venter(site int, tok uintptr) { skiplist.VerifEnter(site, tok) }
+func vstart(site int, id int)      { skiplist.VerifStart(site, id) }
+func vexit()                       { skiplist.VerifExit() }
+func vlock(mu unsafe.Pointer)      { skiplist.VerifLock(mu) }
+func vunlock(mu unsafe.Pointer)    { skiplist.VerifUnlock(mu) }
+func vsim() bool                   { return skiplist.SimYield != nil }
+
+var (
+	// VerifShards overrides runtime.NumCPU() as the number of backup shards when > 0.
+	VerifShards int
+	// VerifFS is called before every file-system mutation of StoreToDisk; a
+	// non-nil error makes that mutation fail without being performed.
+	VerifFS func(op, path string) error
+	// VerifWrapWriter may substitute the writer below a backup file's bufio.Writer.
+	VerifWrapWriter func(path string, fd *os.File) io.Writer
+)
+
+func vshards() int { return VerifShards }
+
+func vfs(op, path string) error {
+	if f := VerifFS; f != nil {
+		return f(op, path)
+	}
+	return nil
+}
+
+func vwrapWriter(path string, fd *os.File) io.Writer {
+	if f := VerifWrapWriter; f != nil {
+		return f(path, fd)
+	}
+	return nil
+}
+
+// VerifResetGlobals resets process-global state so that a run does not depend
+// on the runs executed before it in the same process.
+func VerifResetGlobals() {
+	dbInstances = skiplist.New()
+	dbInstancesCount = 0
+}
+
+// VerifSetRefreshRate sets the iterator refresh rate used by Visitor.
+func (cfg *Config) VerifSetRefreshRate(n int) { cfg.refreshRate = n }
+
+// Read-only accessors for oracles.
+
+func (m *Nitro) VerifStore() *skiplist.Skiplist       { return m.store }
+func (m *Nitro) VerifSnapshots() *skiplist.Skiplist   { return m.snapshots }
+func (m *Nitro) VerifGCSnapshots() *skiplist.Skiplist { return m.gcsnapshots }
+func (m *Nitro) VerifIsGCRunning() bool               { return atomic.LoadInt32(&m.isGCRunning) != 0 }
+func (itm *Item) VerifSn() (born, dead uint32) {
+	return itm.bornSn, atomic.LoadUint32(&itm.deadSn)
+}
+func (s *Snapshot) VerifSn() uint32      { return s.sn }
+func (s *Snapshot) VerifRefCount() int32 { return atomic.LoadInt32(&s.refCount) }
+func (w *Writer) VerifGCListLen() int {
+	c := 0
+	for n := w.gchead; n != nil; n = n.GetLink() {
+		c++
+	}
+	return c
+}
